@@ -465,7 +465,7 @@ Qed.
 
 Lemma conc_reap_L : forall kk c st0 r, good2 c r -> Lgood c st0 r -> Lgood c st0 (conc_reap kk c r).
 Proof.
-  intros kk c st0 [[sc tr] [[v|x|]|]] G H; destruct kk; simpl; auto.
+  intros kk c st0 [[sc tr] [[v|x| |v|v]|]] G H; destruct kk; simpl; auto.
   unfold Lgood in *; simpl in *. unfold good2 in G. chainS.
 Qed.
 
@@ -498,13 +498,10 @@ Proof.
   intros s [[sc tr] r] rest. induction rest as [|x rest IH]; intros i (G & H); simpl.
   - chainS.
   - destruct x; [chainS|]. unfold Lgood in H; simpl in H. unfold good2 in G.
-    destruct r as [[v|x|]|].
-    + specialize (IH (S i) (conj G H)).
-      destruct (rep_loop s (sc, tr, Some (OVal v)) rest (S i)) as [i' [[sc' tr'] r']].
-      destruct r'; chainS.
-    + chainS.
-    + chainS.
-    + chainS.
+    destruct r as [[v|x| |v|v]|]; try solve [chainS].
+    specialize (IH (S i) (conj G H)).
+    destruct (rep_loop s (sc, tr, Some (OVal v)) rest (S i)) as [i' [[sc' tr'] r']].
+    destruct r'; chainS.
 Qed.
 
 Lemma rep_done_L : forall l s st0 ns sc tr o r0,
@@ -512,9 +509,9 @@ Lemma rep_done_L : forall l s st0 ns sc tr o r0,
   Lgood (Un (URepeat l) s) st0 (rep_done l s ns sc tr o r0).
 Proof.
   intros l s st0 ns sc tr o r0 D H G. unfold rep_done.
-  destruct o; try solve [unfold Lgood; simpl; apply lifeS_un; chainS].
-  pose proof (rep_loop_L s r0 (skipn (n_iter ns) l) (n_iter ns) G) as R.
-  destruct (rep_loop s r0 (skipn (n_iter ns) l) (n_iter ns)) as [i' [[sc' tr'] r']].
+  destruct o; try solve [unfold Lgood; simpl; apply lifeS_un; chainS];
+  pose proof (rep_loop_L s r0 (skipn (n_iter ns) l) (n_iter ns) G) as R;
+  destruct (rep_loop s r0 (skipn (n_iter ns) l) (n_iter ns)) as [i' [[sc' tr'] r']];
   destruct r'; unfold Lgood; simpl; apply lifeS_un; chainS.
 Qed.
 
@@ -529,18 +526,12 @@ Proof.
   - chainP.
   - destruct Ga as (Ga & La). destruct Gb as (Gb & Lb). unfold good2 in Ga, Gb. unfold Lgood in La, Lb.
     simpl in La, Lb.
-    destruct rb as [[v|x|]|].
-    + destruct ra as [[v'|x'|]|].
-      * chainP.
-      * assert (GL b r0bl) as Gl' by (apply Gl; simpl; discriminate).
-        specialize (IH (S i) r0bl x' (conj Ga La) Gl Gl').
-        destruct (retry_err a b (sa, tra, Some (OErr x')) r0bl rem (S i) r0bl x') as [[i' p'] [[st' tr'] r']].
-        chainP.
-      * chainP.
-      * chainP.
-    + chainP.
-    + chainP.
-    + chainP.
+    destruct rb as [[v|x| |v|v]|]; try solve [chainP].
+    destruct ra as [[v'|x'| |v'|v']|]; try solve [chainP].
+    assert (GL b r0bl) as Gl' by (apply Gl; simpl; discriminate).
+    specialize (IH (S i) r0bl x' (conj Ga La) Gl Gl').
+    destruct (retry_err a b (sa, tra, Some (OErr x')) r0bl rem (S i) r0bl x') as [[i' p'] [[st' tr'] r']].
+    chainP.
 Qed.
 
 Lemma retry_node_L : forall kk a b st0 ns x tr0,
@@ -560,10 +551,8 @@ Lemma retry_a_done_L : forall n a b st0 ns sa tr oa r0a r0bl rbe,
   Lgood (Bin (BRetry n) a b) st0 (retry_a_done n a b ns sa tr oa r0a r0bl rbe).
 Proof.
   intros n a b st0 ns sa tr oa r0a r0bl rbe D H Ga Gl Gb. unfold retry_a_done.
-  destruct oa as [v|x|].
-  - unfold Lgood; simpl; apply lifeS_bin; chainP.
-  - apply retry_node_L; [chainP|]. apply retry_err_L; auto. eapply Gb; reflexivity.
-  - unfold Lgood; simpl; apply lifeS_bin; chainP.
+  destruct oa as [v|x| |v|v]; try solve [unfold Lgood; simpl; apply lifeS_bin; chainP].
+  apply retry_node_L; [chainP|]. apply retry_err_L; auto. eapply Gb; reflexivity.
 Qed.
 
 Lemma retry_b_done_L : forall n a b st0 ns sb tr ob r0a r0bl,
@@ -572,10 +561,10 @@ Lemma retry_b_done_L : forall n a b st0 ns sb tr ob r0a r0bl,
   Lgood (Bin (BRetry n) a b) st0 (retry_b_done n a b ns sb tr ob r0a r0bl).
 Proof.
   intros n a b st0 ns sb tr ob [[sa tra] ra] r0bl D H Ga Gl. unfold retry_b_done.
-  destruct ob as [v|x|]; try solve [unfold Lgood; simpl; apply lifeS_bin; chainP].
-  pose proof Ga as (Ga' & La). unfold good2 in Ga'. unfold Lgood in La. simpl in La.
-  destruct ra as [[v'|x'|]|]; try solve [unfold Lgood; simpl; apply lifeS_bin; chainP].
-  apply retry_node_L; [chainP|]. apply retry_err_L; auto. apply Gl. simpl. discriminate.
+  destruct ob as [v|x| |v|v]; try solve [unfold Lgood; simpl; apply lifeS_bin; chainP];
+  pose proof Ga as (Ga' & La); unfold good2 in Ga'; unfold Lgood in La; simpl in La;
+  (destruct ra as [[v'|x'| |v'|v']|]; try solve [unfold Lgood; simpl; apply lifeS_bin; chainP]);
+  (apply retry_node_L; [chainP|]); apply retry_err_L; auto; apply Gl; simpl; discriminate.
 Qed.
 
 (* the shapes in which start / stop / leafev pass the pre-computed restarts to retry_when's helpers *)
@@ -624,7 +613,8 @@ Ltac chainS :=
                | eapply lifeS_app; [pieceS|] ].
 
 Opaque conc_child_done un_result after_first after_second is_seq un_done seq_pass seq_final conc_reap
-       finish_conc rep_done retry_a_done retry_b_done un_own un_nst un_env fired res_err dtor.
+       finish_conc rep_done retry_a_done retry_b_done un_own un_nst un_env fired res_err dtor
+       thrown un_in bin_in tmode un_throw bin_throw un_catch bin_catch.
 Arguments good2 e r : simpl never.
 Arguments Lgood k rho ext e st0 r : simpl never.
 Arguments GLs k rho ext e st0 r : simpl never.
@@ -668,6 +658,12 @@ Ltac lstep_on k rho ext x :=
       destruct E as (? & ? & E);
       match type of E with match ?f with _ => _ end => destruct f; try discriminate E end;
       clear E
+  | thrown (?s, ?t, None) => rewrite (thrown_none s t)
+  | thrown (?s, ?t, Some ?oc) =>
+      let E := fresh "E" in
+      destruct (thrown_some s t oc) as [E|(? & ? & E)]; [rewrite E|subst; rewrite E]
+  | un_throw _ => destruct x
+  | bin_throw _ _ => destruct x
   | after_first _ _ _ => destruct x as [?|[? ?]]
   | un_result _ _ => destruct x as [? ?]
   | own_stop _ => destruct x eqn:?
@@ -694,7 +690,7 @@ Ltac finish_L :=
     | apply retry_a_done_L;
         [ solve [auto] | solve [chainP] | solve [auto | gl_tuple]
         | solve [apply retry_bl_GL; auto | apply retry_bl_start_GL; auto]
-        | solve [apply retry_be_GL; auto] ]
+        | solve [apply retry_be_GL; auto | intros; discriminate] ]
     | apply retry_b_done_L;
         [ solve [auto] | solve [chainP] | solve [auto | gl_tuple] | solve [apply retry_bl_GL; auto] ]
     | apply finish_conc_L;
@@ -874,7 +870,8 @@ Proof.
 Qed.
 
 Transparent conc_child_done un_result after_first after_second is_seq un_done seq_pass seq_final conc_reap
-       finish_conc rep_done retry_a_done retry_b_done un_own un_nst un_env fired res_err dtor.
+       finish_conc rep_done retry_a_done retry_b_done un_own un_nst un_env fired res_err dtor
+       thrown un_in bin_in tmode un_throw bin_throw un_catch bin_catch.
 Arguments good2 e r : simpl nomatch.
 
 (* the canonical rho of an expression: its stop-reactive leaf ids *)
